@@ -173,3 +173,29 @@ package keeper
 //@   loop L5 invariant effShardCount(get(ShardCount)) <= old(effShardCount(get(ShardCount))) + rangeindex + 1 && effShardCount(get(ShardCount)) >= old(effShardCount(get(ShardCount)))
 //@   loop L5 invariant has(Order, orderId0)
 //@   loop L5 decreases [C02.timeout.term] len(randSp) - rangeindex
+
+// providers that hold the shards of a model's latest order (reused by a force-push)
+//@ func (Keeper) FindSPByDataId(ctx, dataId) (nodes)
+//@   requires forall c string :: has(Node, c) ==> Node[c].Creator == c
+//@   requires forall i int :: 0 <= i && i <= MaxUint64 && has(Order, i) ==> len(Order[i].Shards) < 2147483648
+//@   ensures [C15.findsp.bound] len(nodes) < 2147483648
+//@   modifies nothing
+//@   ensures [C15.findsp.stored] forall j int :: 0 <= j && j < len(nodes) ==> has(Node, nodes[j].Creator)
+//@   ensures [C15.findsp.len] has(Metadata, dataId) && has(Order, Metadata[dataId].OrderId) ==> len(nodes) <= len(Order[Metadata[dataId].OrderId].Shards)
+//@   ensures [C15.findsp.none] !(has(Metadata, dataId) && has(Order, Metadata[dataId].OrderId)) ==> len(nodes) == 0
+//@   loop L1 invariant -1 <= rangeindex && rangeindex < len(order.Shards) && len(nodes) <= rangeindex + 1
+//@   loop L1 invariant forall j int :: 0 <= j && j < len(nodes) ==> has(Node, nodes[j].Creator)
+
+// GetSps: the providers for a new order; an order is rejected rather than under-replicated
+//@ func (Keeper) GetSps(ctx, order, dataId) (sps, err)
+//@   requires forall c string :: has(Node, c) ==> Node[c].Creator == c
+//@   requires forall i int :: 0 <= i && i <= MaxUint64 && has(Order, i) ==> len(Order[i].Shards) < 2147483648
+//@   requires forall k bytes :: rawhas(Node, k) ==> k == keyof(Node, rawget(Node, k).Creator)
+//@   requires forall c string :: has(Pledge, c) ==> i64(Pledge[c].TotalStorage - Pledge[c].UsedStorage) == Pledge[c].TotalStorage - Pledge[c].UsedStorage
+//@   modifies NodeRound
+//@   ensures [C15.getsps.count] err == nil ==> order.Replica >= 1 && len(sps) == order.Replica
+//@   ensures [C15.getsps.new] err == nil && order.Operation == 1 && order.Size_ <= MaxInt64 ==> (forall a int, b int :: 0 <= a && a < b && b < len(sps) ==> sps[a].Creator != sps[b].Creator)
+//@       && (forall j int :: 0 <= j && j < len(sps) ==> has(Node, sps[j].Creator) && Node[sps[j].Creator] == sps[j] && has(Pledge, sps[j].Creator)
+//@             && Pledge[sps[j].Creator].TotalStorage - Pledge[sps[j].Creator].UsedStorage >= order.Size_ && (13 & sps[j].Status) == 13 && sps[j].Reputation >= 8000)
+//@   loop L1 invariant -1 <= rangeindex && rangeindex < len(sps) && len(ignoreList) == rangeindex + 1
+//@   loop L1 invariant forall j int :: 0 <= j && j <= rangeindex ==> contains(ignoreList, sps[j].Creator)
